@@ -71,6 +71,9 @@ class _RawMixin:
                                 # first KEXINIT, as the specification allows ("MUST be
                                 # ignored if present in subsequent KEXINIT")
     cleartext_inject = None     # {'after_kexinit'|'before_newkeys': [(type, body)]}
+    wrong_guess = False         # True: the first KEXINIT lists a method the other side does
+                                # not have in front and sets first_kex_packet_follows: the
+                                # guess is wrong, the other side must drop our next KEX packet
 
     def _get_extra_kex_algs(self):
         algs = super()._get_extra_kex_algs()
@@ -103,6 +106,21 @@ class _RawMixin:
             # remembered so that a test can REPEAT our own genuine key
             # exchange message (cleartext_inject body None)
             self._last_kex_pkt = (pkttype, b''.join(args))
+        if pkttype == 20 and self.wrong_guess and not self._session_id:
+            from asyncssh.packet import SSHPacket, NameList, Byte
+            body = b''.join(args)
+            pk = SSHPacket(body)
+            cookie = pk.get_bytes(16)
+            lists = [pk.get_namelist() for _ in range(10)]
+            rest = pk.get_remaining_payload()
+            lists[0] = [b'wrong-guess@verif.example'] + lists[0]
+            body = cookie + b''.join(NameList(l) for l in lists) + \
+                b'\x01' + rest[1:]
+            if self.is_server():
+                self._server_kexinit = Byte(20) + body
+            else:
+                self._client_kexinit = Byte(20) + body
+            args = (body,)
         if pkttype == 20 and self.asym:
             from asyncssh.packet import SSHPacket, NameList, Byte
             body = b''.join(args)
@@ -237,7 +255,7 @@ async def raw_listen(host, port, on_conn, no_strict=False, asym=None,
 
 async def raw_connect(host, port, hold_service=False, no_strict=False,
                       cleartext_inject=None, asym=None,
-                      strict_first_only=False, **kwargs):
+                      strict_first_only=False, wrong_guess=False, **kwargs):
     """Connect, run the key exchange and service request, then go raw
     (hold_service: go raw right after NEWKEYS, before SERVICE_REQUEST)."""
     loop = asyncio.get_event_loop()
@@ -255,6 +273,7 @@ async def raw_connect(host, port, hold_service=False, no_strict=False,
         conn.strict_first_only = strict_first_only
         conn.cleartext_inject = cleartext_inject
         conn.asym = asym
+        conn.wrong_guess = wrong_guess
         return conn
 
     return await _c._connect(options, None, loop, 0, None, factory,
